@@ -236,7 +236,9 @@ where
         add("admit-bound-not-enforced", mk(vec![PolySpec::new(2).bound(2)], Some(vec![1, 3])), Box::new(|c| c04::admission::<S>(c, false)), false);
         add("admit-no-bounds-enforced", mk(vec![PolySpec::new(2).bound(2)], Some(vec![])), Box::new(|c| c04::admission::<S>(c, false)), false);
     }
-    add("admit-bound-above-supported", mk(vec![PolySpec::new(2).bound(sup + 1)], Some(vec![sup])), Box::new(|c| c04::admission::<S>(c, false)), false);
+    // IPA rounds the supported degree up to the next 2^k - 1: the first unsupported bound lies above that
+    let first_unsupported = if name == "ipa" { (sup + 1).next_power_of_two() } else { sup + 1 };
+    add("admit-bound-above-supported", mk(vec![PolySpec::new(2).bound(first_unsupported)], Some(vec![sup])), Box::new(|c| c04::admission::<S>(c, false)), false);
     add("admit-bound-eq-supported", mk(vec![PolySpec::new(sup + 2).bound(sup)], Some(vec![sup])), Box::new(|c| c04::admission::<S>(c, true)), false);
     if name != "ipa" {
         // verifier side (IPA's challenges hash the shifted value: decided through C10)
@@ -630,11 +632,15 @@ fn catalogue_inner(prop: &str, t: Tier, seed: u64, out: &mut Vec<Entry>) {
                 let mut en = e(format!("marlin/h{}", h), t, "coefficients, point, challenges, all blinding coefficients", format!("hiding bound {}, 2 coefficients", h), move || c07::marlin(&c2)); en.funcs = f.clone(); out.push(en);
                 let c2 = c.clone();
                 let mut en = e(format!("sonic/h{}", h), t, "coefficients, point, challenges, all blinding coefficients", format!("hiding bound {}, 2 coefficients", h), move || c07::sonic(&c2)); en.funcs = f.clone(); out.push(en);
-                let cb = mk(Size::uni(5, 4, 3), vec![PolySpec::new(2).hide(h).bound(2)]);
+                // Sonic publishes only d + 2 shifted hiding powers for an enforced bound d (the blinding of the shifted
+                // commitment must stay below max_degree + 2), so a hiding bound above the degree bound is outside its
+                // domain (commit answers HidingBoundToolarge): the degree bound is max(2, h)
+                let d = h.max(2);
+                let cb = mk(Size::uni(5, 4, 3), vec![PolySpec::new(2).hide(h).bound(d)]);
                 let c2 = cb.clone();
-                let mut en = e(format!("marlin/h{}-bound2", h), t, "coefficients, point, challenges, all blinding coefficients", format!("hiding bound {}, degree bound 2", h), move || c07::marlin(&c2)); en.funcs = f.clone(); if quick { en.lim.wall_s = 60.0; } out.push(en);
+                let mut en = e(format!("marlin/h{}-bound{}", h, d), t, "coefficients, point, challenges, all blinding coefficients", format!("hiding bound {}, degree bound {}", h, d), move || c07::marlin(&c2)); en.funcs = f.clone(); if quick { en.lim.wall_s = 60.0; } out.push(en);
                 let c2 = cb.clone();
-                let mut en = e(format!("sonic/h{}-bound2", h), t, "coefficients, point, challenges, all blinding coefficients", format!("hiding bound {}, degree bound 2", h), move || c07::sonic(&c2)); en.funcs = f.clone(); if quick { en.lim.wall_s = 60.0; } out.push(en);
+                let mut en = e(format!("sonic/h{}-bound{}", h, d), t, "coefficients, point, challenges, all blinding coefficients", format!("hiding bound {}, degree bound {}", h, d), move || c07::sonic(&c2)); en.funcs = f.clone(); if quick { en.lim.wall_s = 60.0; } out.push(en);
             }
             {
                 let c = mk(Size::uni(3, 3, 1), vec![PolySpec::new(2).hide(1)]);
